@@ -60,6 +60,13 @@ def cases(tier, seed):
         rng = scenario.rng_for(seed, "C11c", i)
         scn = scenario.gen_scenario(rng, refine=False, max_iters=200)
         out.append({"kind": "xproc", "scn": scn, "i": i})
+    # long runs (2300..3400 trials): single steps against a few long batches
+    for i in range(4 if tier == "quick" else 60):
+        rng = scenario.rng_for(seed, "C11L", i)
+        scn = scenario.gen_scenario(rng, dims=(1, 2, 2, 3), refine=False, max_iters=100, fams=["noise", "sines", "rcos", "wells", "cones"])
+        scn["iters"] = 100000
+        scn["m"] = max(scn["m"], 8)
+        out.append({"kind": "long", "scn": scn, "i": i, "seed": seed, "T": int(rng.integers(2300, 3400))})
     # shipped benchmark problems: the SAME problem object serves several Solvers one after the other (repeat, batched repeat) and a freshly
     # constructed object of the same member serves one more - one trial sequence
     fams = ["gkls", "grishagin", "hill", "shekel", "rastrigin", "xsquared", "shekel4", "gkls", "grishagin"]
@@ -147,9 +154,43 @@ def run_bench(c):
             "sample": {"kind": "shipped problem object reused by four Solvers + a fresh object", "key": list(key), "T": T, "refine": scn["refine"]} if c["i"] < 3 else None}
 
 
+def run_long(c):
+    scn = c["scn"]
+    T = c["T"]
+    rng = scenario.rng_for(c["seed"], "C11long", c["i"])
+    viol = []
+    obs = {"long_runs": 1}
+    base = record.run_solver(dict(scn, pattern=[["iter", 1]] * T), listener=False, cap=T + 8)
+    if base.fp_exhausted or base.swallowed or base.aborted:
+        return {"violations": [], "obs": {"long_runs_ended_by_the_guard": 1}, "skip": "fp-domain-exhausted"}
+    b = glog(base)
+    for q in range(2):
+        a1 = int(rng.integers(1500, T - 300))
+        a2 = int(rng.integers(1, T - a1))
+        if q == 0:
+            parts = [a1, a2, T - a1 - a2]
+        else:
+            p0 = int(rng.integers(1, 40))
+            parts = [p0, a1, 0, T - p0 - a1 - 1, 1]
+        assert sum(parts) == T and min(parts) >= 0
+        t = record.run_solver(dict(scn, pattern=[["iter", p] for p in parts]), listener=False, cap=T + 8)
+        if t.fp_exhausted:
+            continue
+        g = glog(t)
+        obs["long_compositions"] = obs.get("long_compositions", 0) + 1
+        if not same_log(b, g):
+            if len(viol) < 3:
+                viol.append({"mech": "batching-changes-sequence", "T": T, "composition": parts, "len": len(g), "first_diff": first_diff(b, g)})
+    obs["max_T_long"] = len(b)
+    return {"violations": viol, "obs": obs, "nontrivial": True, "keys": ["long|%d" % c["i"]],
+            "sample": dict(scenario.short(scn), T=T, kind="single steps against long batches") if c["i"] < 2 else None}
+
+
 def run_case(c):
     if c["kind"] == "bench":
         return run_bench(c)
+    if c["kind"] == "long":
+        return run_long(c)
     scn = c["scn"]
     viol = []
     obs = {}
@@ -260,7 +301,7 @@ def EXHAUSTIVE(tier):
 
 
 def finalize(obs, tier, stats):
-    for k in ("compositions_all", "compositions_random", "overshoot", "zero_batches", "fresh_process_runs", "second_solves", "raised_limit_runs", "bench_reruns", "bench_local_evals"):
+    for k in ("compositions_all", "compositions_random", "overshoot", "zero_batches", "fresh_process_runs", "second_solves", "raised_limit_runs", "bench_reruns", "bench_local_evals", "long_compositions"):
         if not obs.get(k):
             return "%s never exercised" % k, {}
     return None, {"exhaustive_part": "all compositions of every prefix for %d scenarios with T <= %d" % (obs.get("allcomp_scenarios", 0), obs.get("max_T_allcomp", 0))}
